@@ -503,8 +503,12 @@ def mon_c18(w, F, vd):
         if kinds and kinds[0] != "CONNECT" and kinds[0] != "MALFORMED":
             vd.bad("C18.first_not_connect", "connection %d starts with %s" % (conn.idx, kinds[0]))
         n_connect = len([fr for fr in conn.frames if fr[1] == "CONNECT" and fr[4] in ("wire", "dropped")])
-        if n_connect > 1:
-            vd.bad("C18.second_connect", "connection %d: %d CONNECT packets written" % (conn.idx, n_connect))
+        # one CONNECT per connection; an application that calls connect() again on a protocol the broker has
+        # refused (idle again, transport still open) asks for another one itself
+        asked = len([r for r in w.reqs if r.kind == "connect" and r.conn is conn and r.state_before == "idle"])
+        if n_connect > max(1, asked):
+            vd.bad("C18.second_connect", "connection %d: %d CONNECT packets written for %d connect() calls on an idle protocol" % (
+                conn.idx, n_connect, asked))
         disc_ei = None
         for (ei, kind, f, raw, where) in frames:
             ctx = w.log[ei].ctx
@@ -953,6 +957,7 @@ def mon_c04(w, F, vd):
     for e in w.log:
         if e.k == "handlers":
             handlers[e.c] = e.d["mask"]
+    api_i = dict((e.d["rid"], e.i) for e in w.log if e.k == "api")   # a call made from a callback of the loss is not "pending"
     notif = {}
     for e in w.log:
         if e.k == "cb" and e.d["name"] == "onDisconnection":
@@ -966,7 +971,7 @@ def mon_c04(w, F, vd):
         evs_loss = _ctx_events(w, e)
         if conn.clean is False:
             for x in evs_loss:
-                if x.k == "fire" and x.d["kind"] == "publish":
+                if x.k == "fire" and x.d["kind"] == "publish" and api_i.get(x.d["rid"], -1) < e.i:
                     vd.bad("C04.session_mode_at_loss", "publish #%d fired %s(%s) when a connection opened with cleanStart=False was lost (%s)" % (
                         x.d["rid"], x.d["out"], x.d["val"], e.d["phase"]))
         elif conn.clean is True:
